@@ -223,6 +223,25 @@ func checkC05(c *Ctx) {
 			c.anchorMissing("ORDER-root-last", "fewer than 3 root writers in SaveVersion")
 		}
 	}
+	// index build: the label that declares the index complete is queued after every fast node
+	if efc2, lab := l.Func("", "*MutableTree.enableFastStorageAndCommit"), l.Func("", "*nodeDB.SetFastStorageVersionToBatch"); efc2 == nil || lab == nil {
+		c.anchorMissing("ORDER-root-last", "enableFastStorageAndCommit / SetFastStorageVersionToBatch")
+	} else {
+		mutR := batchMutationReach(l)
+		commitP := predStatic(l.Func("", "*nodeDB.Commit"))
+		for _, in := range callsIn(efc2, predStatic(lab)) {
+			later := reachableAfter(in, func(x ssa.Instruction) bool {
+				cc := callCommon(x)
+				return cc != nil && !commitP(cc) && mutR.Instr(x)
+			}, func(x ssa.Instruction) bool { cc := callCommon(x); return cc != nil && commitP(cc) })
+			msg := ""
+			if len(later) > 0 {
+				msg = "after the index label was queued, " + l.calleeName(later[0]) + " at " + l.ipos(later[0]) + " queues more index entries: a flush in between persists a label that declares a partial index complete, and no later open rebuilds it"
+			}
+			c.decide("ORDER-root-last", "index build: label queued after every fast node", l.ipos(in), len(later) == 0, "the label is the last batch mutation before Commit", msg)
+		}
+	}
+
 	// (2c) importer
 	wn := l.Func("", "*Importer.writeNode")
 	rlv := l.Func("", "*nodeDB.resetLatestVersion")
